@@ -28,12 +28,12 @@ LNF = [None, -1, 12, 16]
 SPACERS = [" ", "  ", "\t"]
 BOUNDS = {
     "quick": {"shapes": [[1, 2], [2, 2], [4, 2], [4, 1]], "wide_shapes": [[28, 3]], "width_range": [20, 60], "task_budget_s": 900},
-    "thorough": {"shapes": [[1, 1], [1, 3], [2, 2], [3, 2], [4, 2], [4, 1], [6, 2], [7, 2]], "wide_shapes": [[28, 3], [35, 2], [24, 2]], "width_range": [20, 90], "task_budget_s": 3000, "max_paths": 200000},
+    "thorough": {"shapes": [[1, 1], [1, 3], [2, 2], [3, 2], [4, 2], [4, 1], [6, 2]], "wide_shapes": [[28, 3], [35, 2], [24, 2]], "width_range": [20, 75], "task_budget_s": 3000, "max_paths": 200000},
 }
 ASSUMPTIONS = [
     "samples are concrete floats (the listed magnitudes) with NaN at a symbolic non-index position; '%' formatting and float parsing are libc/numpy (executed, not encoded): the half-unit bound is checked on the values that come back",
     "data_width is a symbolic integer over the stated range, which starts above the widest field + spacer: narrower widths make textwrap split a number over two lines (not a supported combination) (textwrap runs unmodified over the symbolic width); the other options range over the listed finite sets; len_numeric_field=-1 comes with a non-empty spacer",
-    "curve counts up to 4 (quick) / 7 (thorough) over the full option product and every width; plus wide files (28 curves; thorough also 24 and 35) with the version/fmt/len_numeric_field/spacer options and three widths",
+    "curve counts up to 4 (quick) / 6 (thorough) over the full option product and every width; plus wide files (28 curves; thorough also 24 and 35) with the version/fmt/len_numeric_field/spacer options and three widths",
 ]
 WITNESS_TARGETS = ["wrapped-output", "every-wrapped-line-carries-the-same-count", "nan-written-as-null", "numpy-engine-read", "one-value-per-line"]
 EXCLUSIONS = {}
